@@ -8,7 +8,7 @@ from vlib import doubles
 
 ID = 'C18'
 TITLE = 'rank-split invariance'
-CASES = {'quick': 1500, 'thorough': 120000}
+CASES = {'quick': 900, 'thorough': 96000}
 SHARDS = {'quick': 1, 'thorough': 16}
 RULE = ('Generated (a): 0-40 samples (scalars, vectors of 3, 2x2 arrays; values offset+spread*x), positive '
         'weights from {uniform, arbitrary in 1e-3..1e3, geometric tail down to 1e-300, exact ties}, 1-8 '
@@ -24,11 +24,12 @@ ASSUMPTIONS = [
     'tolerance |got-ref| <= 1e-9*ref + 1e-11*max|x-mean|^2-scale (1e-6 relative when the weight ratio exceeds 1e12)',
     'thread interleaving cannot change results (collectives are deterministic); what varies is the split',
 ]
-REQUIRED = {'ranks>=2': 0.5, 'has-single-sample-rank': 0.2, 'has-empty-rank': 0.2, 'weights:nonuniform': 0.4}
+REQUIRED = {'ranks>=2': 0.5, 'has-single-sample-rank': 0.15, 'has-empty-rank': 0.15, 'weights:nonuniform': 0.3,
+            'part:pipeline': 0.1, 'part:variance': 0.4}
 
 
 @st.composite
-def _case(draw):
+def _vcase(draw):
     shape = draw(st.sampled_from(['scalar', 'scalar', 'vec', 'mat']))
     k = {'scalar': 1, 'vec': 3, 'mat': 4}[shape]
     n = draw(st.integers(0, 40))
@@ -51,8 +52,134 @@ def _case(draw):
             'offset': draw(st.sampled_from([0.0, 1.0, 1e3, -1e6])), 'spread': draw(st.sampled_from([1.0, 1e-3, 1e4]))}
 
 
+@st.composite
+def _pcase(draw):
+    from vlib.props import c09
+    c = draw(c09._case())
+    c['sampler'] = 'nestle'
+    c['nranks'] = draw(st.sampled_from([2, 3, 4, 5, 7]))
+    c['ns'] = len(c['u'])
+    if not c['derived']:
+        c['derived'] = ['mu']
+    c['part'] = 'pipeline'
+    return c
+
+
 def strategy(tier):
-    return _case()
+    return st.one_of(_vcase().map(lambda c: dict(c, part='variance')), _vcase().map(lambda c: dict(c, part='variance')),
+                     _vcase().map(lambda c: dict(c, part='variance')), _pcase())
+
+
+def check(case):
+    out = Outcome()
+    out.cls('part:' + case.get('part', 'variance'))
+    if case.get('part') == 'pipeline':
+        return check_pipeline(case, out)
+    return check_variance(case, out)
+
+
+def check_pipeline(case, out):
+    """Optimizer.generate_profiles / compute_derived_trace on N simulated ranks (one model and optimizer
+    instance per rank) against the single-process run of the same posterior"""
+    import contextlib
+    import io
+    import random
+    import shutil
+    import tempfile
+    from vlib.props import c09
+    tmpdir = tempfile.mkdtemp(prefix='verif_c18_')
+    nr = case['nranks']
+    try:
+        Rs = []
+        for r in range(nr + 1):                      # instance 0 is the single-process reference
+            R = c09.Retrieval(out, case, tmpdir)
+            if not R.ok or not R.order:
+                out.cls('degenerate-world')
+                return out
+            cut(out, 'compile_params', R.opt.compile_params)
+            with doubles.sampler_doubles(result=c09.deliver(R, tmpdir)):
+                with contextlib.redirect_stdout(io.StringIO()), np.errstate(all='ignore'):
+                    cut(out, 'compute_fit', R.opt.compute_fit)
+            Rs.append(R)
+        wts = Rs[0].weights
+        ns = len(wts)
+        out.cls('ranks>=2')
+        sizes = [len(range(r, ns, nr)) for r in range(nr)]
+        if any(s == 1 for s in sizes):
+            out.cls('has-single-sample-rank')
+        if any(s == 0 for s in sizes):
+            out.cls('has-empty-rank')
+        nonuni = len(set(np.round(wts / wts.max(), 12))) > 1
+        ties = len(set(wts.tolist())) < ns
+        out.cls('weights:' + ('nonuniform' if nonuni else 'uniform'))
+        out.cls('pipeline-weights:' + case['wkind'])
+        grid = np.asarray(Rs[0].obs.wavenumberGrid)
+
+        def work(R):
+            with np.errstate(all='ignore'):
+                prof, spec = R.opt.generate_profiles(0, grid)
+                der = R.opt.compute_derived_trace(0)
+            return prof, spec, der
+        random.seed(4242)
+        single = cut(out, 'single-process', work, Rs[0])
+        random.seed(4242)      # only rank 0 draws the sub-sample (and broadcasts it)
+        with doubles.simulated_mpi(nr) as run:
+            res = cut(out, 'ranks', run, lambda r: work(Rs[r + 1]))
+        tag = '%s%s' % (case['wkind'], ',ties' if ties else '')
+
+        def same(a, b, scale=None):
+            a, b = np.asarray(a, dtype=float), np.asarray(b, dtype=float)
+            if a.shape != b.shape:
+                return False
+            if scale is not None:
+                # a variance that is zero up to rounding may come out slightly negative, its root NaN:
+                # a NaN on one side is accepted against a variance within the rounding floor on the other
+                floor = 1e-12 * scale * scale
+                one = np.isnan(a) ^ np.isnan(b)
+                other = np.where(np.isnan(a), b, a)
+                if np.any(one & ~(other * other <= floor)):
+                    return False
+                a = np.where(one, 0.0, a)
+                b = np.where(one, 0.0, b)
+            if not np.array_equal(np.isnan(a), np.isnan(b)):
+                return False
+            a, b = np.nan_to_num(a, nan=-1.0), np.nan_to_num(b, nan=-1.0)
+            if scale is None:
+                return close(a, b, rtol=1e-9, atol=1e-300)
+            # standard deviations: compare variances; a variance carries an absolute rounding
+            # error of order eps * (magnitude of the averaged quantity)^2
+            return close(a * a, b * b, rtol=1e-8, atol=1e-12 * scale * scale)
+        with np.errstate(all='ignore'):
+            nominal = Rs[0].m.model()
+        scales = {'temp_profile_std': float(np.max(Rs[0].m.temperatureProfile)) * 2, 'active_mix_profile_std': 1.0,
+                  'inactive_mix_profile_std': 1.0, 'native_std': float(np.max(np.abs(nominal[1]))) * 10,
+                  'binned_std': float(np.max(np.abs(nominal[1]))) * 10}
+        for r in range(nr):
+            prof, spec, der = res[r]
+            out.applies('pipeline-std')
+            for k in single[0]:
+                if k not in prof or not same(prof[k], single[0][k], scales.get(k, 1.0)):
+                    out.fail('pipeline-std@profiles,%s' % tag, 'rank %d of %d: %s differs from the single-process value' % (r, nr, k))
+                    break
+            for k in single[1]:
+                if k not in spec or not same(spec[k], single[1][k], scales.get(k, 1.0)):
+                    out.fail('pipeline-std@spectra,%s' % tag, 'rank %d of %d: %s differs from the single-process value' % (r, nr, k))
+                    break
+            out.applies('pipeline-derived')
+            for k in (single[2] or {}):
+                e, e0 = der[k], single[2][k]
+                if not same(e['trace'], e0['trace']):
+                    out.fail('pipeline-derived@trace-order,%s' % tag, 'rank %d of %d: %s trace is not in sample order' % (r, nr, k))
+                    break
+                if not same([e['value'], e['sigma_m'], e['sigma_p'], e['mean']], [e0['value'], e0['sigma_m'], e0['sigma_p'], e0['mean']]):
+                    out.fail('pipeline-derived@summaries,%s' % tag, 'rank %d of %d: %s summaries differ' % (r, nr, k))
+                    break
+        out.nontrivial = bool(nonuni and ns >= 2)
+    except CutError:
+        pass
+    finally:
+        shutil.rmtree(tmpdir, ignore_errors=True)
+    return out
 
 
 def two_pass(xs, ws):
@@ -63,9 +190,8 @@ def two_pass(xs, ws):
     return mean, var
 
 
-def check(case):
+def check_variance(case, out):
     from taurex.util.math import OnlineVariance
-    out = Outcome()
     shape = case['shape']
     off, sp = case['offset'], case['spread']
 
